@@ -75,6 +75,15 @@ CHECKS = {
             "checked online over rejected/truncated JSON, Value/hash-array/container histories (and template cache lifetimes); "
             "ASan adds use-after-free/double-free, LSan the process-exit view.",
             "only executed paths; allocation failure is not injected", "3/C16"),
+    "C18": ("model-based runtime monitor (reference partition on the document model) for GroupBy and <loop group=>",
+            "Generated arrays of records with the key at varying member positions, all key kinds, removed members; the "
+            "result tree is compared node by node with the reference partition, the source must be unchanged, and the loop "
+            "attribute must print the same partition.",
+            "arrays are sampled (<= 12 records, <= 6 groups)", "3/C18"),
+    "C03": ("exhaustive small-alphabet enumeration + random strings through an injection-safety oracle, on the escaper and on every printing path of the renderer",
+            "All strings over the 18 risky units up to length 5 (6 in thorough) in four widths, random strings with entity "
+            "look-alikes near the end, and payloads pushed through each printing path isolated by sentinels; escape on/off builds.",
+            "longer strings are sampled", "3/C03"),
 }
 
 PENDING = {}
